@@ -189,8 +189,20 @@ fn serializer_scenario_inner(l: &mut L1, seed: u64, rng: &mut Rng, pw_r: u32, ho
         text.push_str(&filler(&mut rng, pre));
         if stray && l.ch.chance("stray_here", 500) {
             // partial / overlapping markers of the reader's password in front of a beacon
-            let kind = l.ch.choose("stray_kind", 6);
+            let kind = l.ch.choose("stray_kind", 7);
             let s = match kind {
+                6 => {
+                    // many short alphanumeric chunks between a begin and an end marker: one in 256 passes the one-byte
+                    // check and is then read as a peer list whose counts have nothing to do with its length
+                    let mut out = String::new();
+                    for _ in 0..(20 + rng.below(40)) {
+                        let n = 6 + rng.below(40) as usize;
+                        let body: String = (0..n).map(|_| ALNUM[rng.below(62) as usize] as char).collect();
+                        out.push_str(&format!("{}{}{} ", begin, body, end));
+                    }
+                    l.count("c17_bursts_of_short_chunks_between_markers");
+                    out
+                }
                 5 => {
                     // a very long alphanumeric chunk between a begin and an end marker
                     let n = 4000 + rng.below(4000) as usize;
